@@ -117,7 +117,7 @@ class Model:
     def __init__(self, failfast):
         self.F = failfast
         self.in_test = False
-        self.has_outcome = False
+        self.has_outcome = 0
         self.bad = False
         self.stopped = False
         self.tests = 0
@@ -136,6 +136,10 @@ class System:
     def __init__(self, config, max_tests):
         self.config = config
         self.max_tests = max_tests
+        # second problem report for one test: on the shallow stacks (the summary lives in the leaf)
+        # (not through ThreadsafeForwardingResult, which by design forwards every outcome as a
+        # start/outcome/stop block of its own, so that the target counts such a test twice)
+        self.double = len(config[1]) <= 1 and config[0] != "etsd" and "tfr" not in config[1]
 
     def fresh(self):
         m = Model(self.config[2] != "off")
@@ -158,6 +162,10 @@ class System:
             out.extend((o,) for o in OUTCOMES)
         else:
             out.append(("stopTest",))
+            if m.has_outcome == 1 and self.double:
+                # a plain unittest.TestCase whose body fails and whose tearDown or a cleanup raises
+                # as well reports two problems for one test
+                out.extend((("addError",), ("addFailure",)))
         out.append(("stop",))
         return out
 
@@ -183,7 +191,7 @@ class System:
             elif name == "startTest":
                 top.startTest(t)
                 m.in_test = True
-                m.has_outcome = False
+                m.has_outcome = 0
                 m.tests += 1
                 m.total_tests += 1
             elif name == "stopTest":
@@ -202,7 +210,7 @@ class System:
                     top.addUnexpectedSuccess(t)
                 else:
                     getattr(top, name)(t, details={"d": text_content("x")})
-                m.has_outcome = True
+                m.has_outcome += 1
                 m.counts[name] += 1
                 if name in BAD:
                     m.bad = True
@@ -292,12 +300,27 @@ def check_summary(text, m):
 # ---------------------------------------------------------------------------
 # real suites and testtools.run
 
-KINDS = ("success", "failure", "error", "skip", "xfail", "uxsuccess")
-KIND_BAD = ("failure", "error", "uxsuccess")
+KINDS = ("success", "failure", "error", "skip", "xfail", "uxsuccess", "double")
+KIND_BAD = ("failure", "error", "uxsuccess", "double")
 RAN = []
 
 
 def make_case(kind, n):
+    if kind == "double":
+        # plain unittest.TestCase: the failing body and the failing tearDown are reported separately
+        class D(unittest.TestCase):
+            def test_it(self):
+                RAN.append(n)
+                self.fail("f")
+
+            def tearDown(self):
+                raise ValueError("e")
+
+            def id(self):
+                return "k%d.double" % n
+
+        return D("test_it")
+
     class K(testtools.TestCase):
         def test_it(self):
             RAN.append(n)
@@ -323,6 +346,10 @@ sys.modules["vt_synth_c04"] = _MOD
 
 
 def check_suites(res, tier):
+    import warnings
+
+    # python 3.12's unittest.TestCase warns about results without addDuration
+    warnings.filterwarnings("ignore", message="TestResult has no addDuration method")
     problems = []
     maxn = 3
     suite_configs = [("tt", (), "inner"), ("tt", ("etod",), "outer"), ("tt", ("multi1",), "outer"), ("tt", ("tfr",), "inner"), ("text", (), "inner"), ("tt", ("decorator", "etod"), "inner"), ("tt", ("multi2", "tfr"), "inner"), ("etsd", (), "outer"), ("tt", (), "off")]
@@ -363,6 +390,11 @@ def check_suites(res, tier):
                 m.tests = len(want)
                 for i in want:
                     k = kinds[i]
+                    if k == "double":
+                        m.counts["addFailure"] += 1
+                        m.counts["addError"] += 1
+                        m.bad = True
+                        continue
                     m.counts[{"success": "addSuccess", "failure": "addFailure", "error": "addError", "skip": "addSkip", "xfail": "addExpectedFailure", "uxsuccess": "addUnexpectedSuccess"}[k]] += 1
                     if k in KIND_BAD:
                         m.bad = True
